@@ -391,6 +391,8 @@ func c14Gen(r *rand.Rand, tier string) any {
 			sc.Ops = append(sc.Ops, opSpec{Op: "gc", Index: r.IntN(2) == 0}) // `dawn gc` loads from the index when it can
 		default:
 			op := opSpec{Op: "build", Label: pickLabel(r, shadow)}
+			// watch mode: the project of the previous build is reloaded, not loaded afresh
+			op.Reload = r.IntN(3) == 0
 			if r.IntN(4) == 0 && !seenGC {
 				// an interrupted build leaves temporaries behind. Only before the first
 				// collection: a crash is placed by step count, and the two twin histories take
